@@ -980,7 +980,15 @@ pub fn t14(prop: &str, seed: u64) -> RunDesc {
         adv.extend([o(K::Pin, 0, 0, 0, 0), o(K::TryAdvance, 0, 0, 0, 0), o(K::Unpin, 0, 0, 0, 0)]);
     }
     d.threads.push(thread(3, "advance", adv));
-    let mut r = vec![o(K::Pin, 0, 0, 0, 0), o(K::LoadW, WROOT0, 0, 1, 0), o(K::Signal, 6, 0, 0, 0), o(K::Await, 5, 0, 0, 0)];
+    let mut r = vec![o(K::Pin, 0, 0, 0, 0), o(K::LoadW, WROOT0, 0, 1, 0), o(K::Signal, 6, 0, 0, 0)];
+    // variant: the reader keeps flushing (scheduling collections) inside its critical section
+    // while the writer's rounds move the clock: none of that may end its protection
+    let reader_flushes = if Rng::new(seed ^ 0x14B).chance(0.4) { 4 + Rng::new(seed ^ 0x14C).below(8) } else { 0 };
+    for i in 0..reader_flushes as u32 {
+        // in lock step with the writer's rounds
+        r.extend([o(K::Await, 21 + 2 * i, 0, 0, 0), o(K::Flush, 0, 0, 0, 0), o(K::Signal, 22 + 2 * i, 0, 0, 0)]);
+    }
+    r.push(o(K::Await, 5, 0, 0, 0));
     match rng.below(3) {
         0 => r.extend([o(K::WsUpgrade, 1, 0, 0, 0), o(K::DerefSnap, 0, 0, 0, 0)]),
         1 => r.extend([o(K::WsCounted, 1, 0, 0, 0), o(K::Upgrade, 0, 1, 0, 0), o(K::DerefRc, 1, 0, 0, 0), o(K::DropRc, 1, 0, 0, 0), o(K::DropW, 0, 0, 0, 0)]),
@@ -989,10 +997,14 @@ pub fn t14(prop: &str, seed: u64) -> RunDesc {
     r.push(o(K::Unpin, 0, 0, 0, 0));
     d.threads.push(thread(4, "reader", r));
     let mut w = vec![o(K::Await, 6, 0, 0, 0), o(K::Pin, 0, 0, 0, 0), o(K::StoreW, WROOT0, NONE_SLOT, 0, 0), o(K::Flush, 0, 0, 0, 0), o(K::Unpin, 0, 0, 0, 0)];
+    for i in 0..reader_flushes as u32 {
+        w.extend(rounds(1));
+        w.extend([o(K::Signal, 21 + 2 * i, 0, 0, 0), o(K::Await, 22 + 2 * i, 0, 0, 0)]);
+    }
     w.extend(rounds(1 + rng.below(3) as usize));
     w.push(o(K::Signal, 5, 0, 0, 0));
     d.threads.push(thread(4, "drop-last-weak-and-collect", w));
-    d.params = J::obj().set("template", "T14 WeakSnapshot outlives the last Weak and the object").set("last_weak_is_a_field_of_the_parent", weak_in_parent);
+    d.params = J::obj().set("template", "T14 WeakSnapshot outlives the last Weak and the object").set("last_weak_is_a_field_of_the_parent", weak_in_parent).set("reader_flushes", reader_flushes);
     d
 }
 
